@@ -125,6 +125,7 @@ type Event struct {
 	Srt   bool         `json:"srt"`  // all listings sorted and duplicate free
 	Mt    string       `json:"mt"`   // digest of every modification time of the base (wrapper runs only)
 	Cons  []string     `json:"cons"` // primitives consulted through a FailFS wrapper during the call, in order
+	Um    int          `json:"um"`   // umask of the (base / parent) file system itself, -1 when not observable
 	Leak  bool         `json:"leak"` // a path returned or embedded in an error reveals the base path (BasePathFS)
 }
 
@@ -140,6 +141,7 @@ type Alt struct {
 }
 
 type Edge struct {
+	Um   *int         `json:"um"`
 	T    string       `json:"t"`   // "" = transition, "alt" = an alternative outcome of the transition with the same key
 	Alt  *Alt         `json:"alt"` // the alternative (t == "alt")
 	Alts []Alt        `json:"alts"`
